@@ -1,6 +1,7 @@
 import Svgbob.Proofs.Shift
 import Svgbob.Proofs.ForestMove
 import Svgbob.Proofs.NodeMove
+import Svgbob.Proofs.WholeMove
 import Svgbob.Proofs.MoveAll2
 import Svgbob.Proofs.FrontShift
 /-!
@@ -22,10 +23,14 @@ and one column wide). The back end is `document_of_the_moved_drawing` (`Proofs/N
 document built from the moved cells, fragments and groups has a canvas grown by `scale·(k, 2n)` cells
 and, node for node and in the same order, the old drawing with exactly that offset added to every
 abscissa / ordinate (`Node.moveNum`) — kinds, classes, sizes, radii, flags, texts, nesting, the style
-sheet and the marker definitions are the same. Not covered by a theorem: splitting the text into
-rows and the legend cut-off (a legend block is not moved with the drawing). Those are checked on the
-implementation by the shift oracle at offsets up to (400, 200), and the model is tied to the
-implementation byte-for-byte there.
+sheet and the marker definitions are the same. `moving_the_text_moves_the_document` composes all of
+it for the whole conversion of the model (`Model/Convert.convertDoc`, the function the driver
+serializes for the byte-level correspondence): the text with `n` line feeds in front and `k` blanks
+at the start of every line (`shiftText`) converts to the same document parts moved by
+`scale·(k, 2n)` cells — for every text without `#` (no legend marker before or after the move; a
+legend block is not moved with the drawing) that has at least one occupied cell. The shift oracle
+checks the implementation at offsets up to (400, 200), and the model is tied to the implementation
+byte-for-byte there.
 -/
 namespace Svgbob.C06
 open Svgbob
@@ -178,6 +183,51 @@ theorem document_of_the_drawing (len : List Char → Nat) (cfg : Cfg) (cells : L
     svgRoot len cfg cells css accepted groups =
       assembleRoot cfg css (canvasSize cfg cells) (drawingNodes len cfg.scaleN accepted groups) :=
   svgRoot_eq_assemble len cfg cells css accepted groups hov
+
+/-! ### the whole conversion -/
+
+/-- the rows of the moved text: `n` empty rows, the rows of the text each behind `k` blanks, and
+possibly rows of blanks only (the blanks after a final line feed) -/
+theorem rows_of_the_moved_text (k n : Nat) (s : List Char) :
+    ∃ j, lines (shiftText k n s) =
+      List.replicate n [] ++ (lines s).map (blanks k ++ ·) ++ List.replicate j (blanks k) :=
+  lines_shiftText k n s
+
+/-- the front end on the moved text gives the moved cells and quoted texts -/
+theorem front_end_equivariant (env : Env) (h : env.SpaceOk) (k n : Nat) (s : List Char) (hs : '#' ∉ s) :
+    (front env (shiftText k n s)).cells = Span.shift k n (front env s).cells ∧
+    (front env (shiftText k n s)).escaped = (front env s).escaped.map (fun e => (e.1.shift k n, e.2)) ∧
+    (front env (shiftText k n s)).css = [] ∧ (front env s).css = [] :=
+  front_shiftText env h k n s hs
+
+/-- the regenerated catalogue holds no polygon without points (kernel evaluation) -/
+theorem real_catalogue_can_be_moved : catalogue.map Catalogue.movableB = some true :=
+  real_catalogue_movable
+
+/-- **moving the text moves the document** (the whole conversion of the model): same legend rules
+(none), canvas grown by `scale·(k, 2n)` cells, the same nodes in the same order with exactly that
+offset added to every coordinate and nothing else changed -/
+theorem moving_the_text_moves_the_document (env : Env) (henv : env.SpaceOk) (cfg : Cfg)
+    (cat : Catalogue) (hcat : cat.AllMovable) (k n : Nat) (s : List Char) (hs : '#' ∉ s)
+    (hne : (front env s).cells ≠ []) :
+    convertParts env cfg cat (shiftText k n s) =
+      (convertParts env cfg cat s).map
+        (DocParts.move (1000 * (k : Int) * cfg.scaleN) (2000 * (n : Int) * cfg.scaleN)) :=
+  convertParts_shiftText env henv cfg cat hcat k n s hs hne
+
+/-- … where the document is the root assembled from those parts -/
+theorem document_is_assembled_from_its_parts (env : Env) (cfg : Cfg) (cat : Catalogue)
+    (input : List Char) (hov : cfg.overrideSize = none) :
+    convertDoc env cfg cat input =
+      (convertParts env cfg cat input).map fun p => assembleRoot cfg p.css p.wh p.drawing :=
+  convertDoc_eq_parts env cfg cat input hov
+
+/-- the hypotheses are satisfiable (labelled as test): a small box, an environment in which every
+character is one column wide and only the blank is white space -/
+example :
+    let env : Env := ⟨fun _ => some 1, fun c => c == ' '⟩
+    '#' ∉ "+-+\n| |\n+-+".toList ∧ (front env "+-+\n| |\n+-+".toList).cells ≠ [] := by
+  decide +kernel
 
 /-- test (labelled as test): a tagged box with a line and an arrow head, moved by (3, 2) at scale 8 —
 the hypotheses are satisfiable and the statement is about a non-trivial document -/
